@@ -4544,6 +4544,11 @@ SDsetdimval_comp(int32 dimid,    /* IN: dimension ID, returned from SDgetdimid *
         HGOTO_ERROR(DFE_ARGS, FAIL);
     }
 
+    /* SDend writes nothing to a file opened read-only: refuse instead of dropping the change silently */
+    if (!(handle->flags & NC_RDWR)) {
+        HGOTO_ERROR(DFE_DENIED, FAIL);
+    }
+
     /* get the dimension structure */
     dim = SDIget_dim(handle, dimid);
     if (dim == NULL) {
